@@ -19,7 +19,7 @@ Import ListNotations.
 Theorem c01_shared_instance : forall s st,
   run repaired s = Ok st ->
   forall h k v, In v (field_of st h k) -> alookup (owner v) (L1 (reg st)) = Some v.
-Proof. intros s st H. exact (run_published repaired s st eq_refl H). Qed.
+Proof. intros s st H. intros h k v. exact (run_published (P:=anyk) repaired s st eq_refl H h k v I). Qed.
 
 (* ... and the by-name lookup of that component returns that same version, leaving the state alone *)
 Theorem c01_lookup_agrees : forall s st,
@@ -54,6 +54,55 @@ Example c01_example :
   match run repaired ex_scn1 with
   | Ok st => field_of st 2 0 = [VOrig 3] /\ field_of st 3 0 = [VOrig 2] /\ field_of st 3 1 = [VOrig 4]
              /\ field_of st 4 0 = [VOrig 2] /\ alookup 2 (L1 (reg st)) = Some (VOrig 2)
+  | Fail _ _ => False
+  end.
+Proof. vm_compute. repeat split. Qed.
+
+(* ---- extended semantics (Model/FactoryX.v): post-processors that short-circuit instantiation and Init methods
+   that look components up in the factory.  Injection points are the indices below 100; the indices from 100
+   on are the pseudo-fields where an Init method keeps what its own lookups returned (see Properties/C03.v for
+   why those are outside the statement). ---------------------------------------------------------------- *)
+From IocVerif Require Import Model.FactoryX Proofs.FactoryXInv.
+
+Theorem c01_shared_instance_extended : forall s x o st,
+  run_xt repaired s x = (o, Ok st) ->
+  forall h k v, k < 100 -> In v (field_of st h k) -> alookup (owner v) (L1 (reg st)) = Some v.
+Proof. intros s x o st H. exact (run_xt_published repaired s x o st eq_refl H). Qed.
+
+Theorem c01_lookup_agrees_extended : forall s x o st,
+  run_xt repaired s x = (o, Ok st) ->
+  forall h k v, k < 100 -> In v (field_of st h k) ->
+  forall fuel, snd (do_get_xt repaired (normalise repaired s) x (S fuel) st (owner v)) = Ok (st, v).
+Proof.
+  intros s x o st H h k v Hk Hv fuel. apply do_get_xt_published. eapply c01_shared_instance_extended; eauto.
+Qed.
+
+Theorem c01_no_second_copy_extended : forall s x o st,
+  run_xt repaired s x = (o, Ok st) ->
+  forall h k v h' k' v', k < 100 -> k' < 100 ->
+  In v (field_of st h k) -> In v' (field_of st h' k') -> owner v = owner v' -> v = v'.
+Proof.
+  intros s x o st H h k v h' k' v' Hk Hk' Hv Hv' Ho.
+  pose proof (c01_shared_instance_extended s x o st H h k v Hk Hv) as H1.
+  pose proof (c01_shared_instance_extended s x o st H h' k' v' Hk' Hv') as H2.
+  rewrite Ho in H1. congruence.
+Qed.
+
+(* non-vacuity: component 2's Init looks the lazy component 3 up, which is wired with 2 (in creation: 3 gets the
+   early reference of 2); processor 4 short-circuits component 5 *)
+Definition ex_scn1x : scenario :=
+  mkScn [ mkComp 100 [] false None false true [] [] [] None None None false (Some (Ord 2, PBuiltin BWire));
+          mkComp 101 [] false None false true [] [] [] None None None false (Some (Ord 4, PBuiltin BFurther));
+          mkComp 0 [] false None false false [] [] [] None (Some false) None false None;
+          mkComp 1 [] false None false true [] [mkPoint false (TPtr 0) SByType None true] [] None (Some false) None false None;
+          mkComp 7 [] false None false false [] [] [] None None None false (Some (Unord, PUser [] []));
+          mkComp 2 [] false None false false [] [] [] None (Some false) None false None ]
+        [] false None [].
+
+Example c01_example_extended :
+  match snd (run_xt repaired ex_scn1x (mkX [(4, 5)] [(2, [3])])) with
+  | Ok st => field_of st 3 0 = [VOrig 2] /\ field_of st 2 100 = [VOrig 3]
+             /\ alookup 2 (L1 (reg st)) = Some (VOrig 2) /\ alookup 5 (L1 (reg st)) = Some (VOrig 5)
   | Fail _ _ => False
   end.
 Proof. vm_compute. repeat split. Qed.
